@@ -809,11 +809,29 @@ impl Typer {
 
                 let mut args_tast = Vec::new();
                 let mut arg_types = Vec::new();
-                for arg in args.iter() {
+                // An argument for a `dyn` parameter is checked against the parameter type, as
+                // in the other call forms: this is where a value becomes `dyn`.
+                let mut expected_params: Option<Vec<tast::Ty>> = None;
+                for (index, arg) in args.iter().enumerate() {
                     let arg_tast = match typed_receiver.take() {
                         Some(receiver) => receiver,
-                        None => self.infer_expr(genv, local_env, diagnostics, *arg),
+                        None => match expected_params.as_ref().and_then(|ps| ps.get(index)) {
+                            Some(expected)
+                                if index > 0 && matches!(expected, tast::Ty::TDyn { .. }) =>
+                            {
+                                let expected = expected.clone();
+                                self.check_expr(genv, local_env, diagnostics, *arg, &expected)
+                            }
+                            _ => self.infer_expr(genv, local_env, diagnostics, *arg),
+                        },
                     };
+                    if index == 0
+                        && let tast::Ty::TFunc { params, .. } =
+                            instantiate_self_ty(&inst_method_ty, &arg_tast.get_ty())
+                        && params.len() == args.len()
+                    {
+                        expected_params = Some(params);
+                    }
                     arg_types.push(arg_tast.get_ty());
                     args_tast.push(arg_tast);
                 }
@@ -2119,13 +2137,31 @@ impl Typer {
                     let mut arg_types = Vec::with_capacity(args.len() + 1);
                     arg_types.push(receiver_ty.clone());
                     args_tast.push(receiver_tast);
-                    for arg in args.iter() {
-                        let arg_tast = self.infer_expr(genv, local_env, diagnostics, *arg);
+                    let inst_method_ty = self.inst_ty(&method_ty);
+                    // as in `T::m(x, a)`: an argument for a `dyn` parameter is checked against it
+                    let expected_params = match &inst_method_ty {
+                        tast::Ty::TFunc { params, .. } if params.len() == args.len() + 1 => {
+                            Some(params.clone())
+                        }
+                        _ => None,
+                    };
+                    for (index, arg) in args.iter().enumerate() {
+                        let arg_tast = match &expected_params {
+                            Some(params) if matches!(params[index + 1], tast::Ty::TDyn { .. }) => {
+                                self.check_expr(
+                                    genv,
+                                    local_env,
+                                    diagnostics,
+                                    *arg,
+                                    &params[index + 1],
+                                )
+                            }
+                            _ => self.infer_expr(genv, local_env, diagnostics, *arg),
+                        };
                         arg_types.push(arg_tast.get_ty());
                         args_tast.push(arg_tast);
                     }
 
-                    let inst_method_ty = self.inst_ty(&method_ty);
                     let ret_ty = self.fresh_ty_var();
                     let call_site_ty = tast::Ty::TFunc {
                         params: arg_types,
